@@ -225,6 +225,9 @@ func (p *Profile) AddRule(log map[string]string) {
 			p.Rules = append(p.Rules, newFileFromLog(log))
 		case strings.Contains(log["operation"], "dbus"):
 			p.Rules = append(p.Rules, newDbusFromLog(log))
+		case log["family"] != "":
+			// Network event from a kernel that does not log the class
+			p.Rules = append(p.Rules, newLogMap["net"](log))
 		default:
 			fmt.Printf("unknown log type: %s:%v\n", log["operation"], log)
 		}
